@@ -27,6 +27,7 @@ type SimTx struct {
 	Spends string   `json:"spends"`
 	Seq    int      `json:"seq"` // creation order on this chain
 	Vout   int      `json:"vout"`
+	Hash   string   `json:"hash"` // opening: the payment hash locked in the swap output
 }
 
 type confReg struct {
